@@ -1,8 +1,39 @@
-/- Driver handler of C14: protocol line (already split into tokens, without the leading "c14") -> answer. -/
+/- Driver handler of C14: protocol line (already split into tokens) -> answer.
+     c14 sum|average|min|max|count <args…>     args: scalar tokens and arrays `a:r:c v…`
+     c14 subtotal <int> <args…>
+     c14 sumproduct <args…>
+-/
 import Pycel.Model.Proto
+import Pycel.Model.Aggregates
 namespace Pycel.Drv.C14
+open Pycel Pycel.Agg
+
+def fnOf? : String → Option Fn
+  | "sum" => some .sum
+  | "average" => some .average
+  | "min" => some .min
+  | "max" => some .max
+  | "count" => some .count
+  | _ => none
 
 def handle : List String → String
+  | "c14" :: "subtotal" :: n :: rest =>
+    match n.toInt?, decArgs? rest with
+    | some n, some args =>
+      match subtotal n (cellsOf args) with
+      | .value v => v.enc
+      | .unknownFunction => "!exc:pycel:UnknownFunction(NameError)"
+      | .badNumber => "!exc:bare:ValueError"
+      | .unmodelled name => "!unmodelled:" ++ name
+    | _, _ => "!bad-arg"
+  | "c14" :: "sumproduct" :: rest =>
+    match decArgs? rest with
+    | some args => (sumproduct args).enc
+    | none => "!bad-arg"
+  | "c14" :: f :: rest =>
+    match fnOf? f, decArgs? rest with
+    | some f, some args => (aggArgs f args).enc
+    | _, _ => "!bad-arg"
   | _ => "!bad-op"
 
 end Pycel.Drv.C14
